@@ -9,6 +9,7 @@ package governance
 
 import (
 	"bytes"
+	"fmt"
 
 	beacon "github.com/oasisprotocol/oasis-core/go/beacon/api"
 	"github.com/oasisprotocol/oasis-core/go/common/cbor"
@@ -51,10 +52,22 @@ func gSame(a, b []gKV) bool {
 	return true
 }
 
+// gNoDispatcher stands for the other applications: a published message (the validation of proposed parameter
+// changes) may be rejected by its subscriber, claimed by it, or be of interest to nobody - a symbolic choice.
 type gNoDispatcher struct{}
 
-func (gNoDispatcher) Subscribe(any, abciAPI.MessageSubscriber)               {}
-func (gNoDispatcher) Publish(*abciAPI.Context, abciAPI.Message) (any, error) { return nil, nil }
+var errGVeto = fmt.Errorf("verif: a subscriber rejected the message")
+
+func (gNoDispatcher) Subscribe(any, abciAPI.MessageSubscriber) {}
+func (gNoDispatcher) Publish(*abciAPI.Context, abciAPI.Message) (any, error) {
+	switch symx.Choose("subscriberAnswer", 3) {
+	case 0:
+		return nil, errGVeto
+	case 1:
+		return nil, nil // nobody is interested
+	}
+	return struct{}{}, nil
+}
 
 // VerifGovTx: cfg tx selects 0 SubmitProposal(upgrade), 1 SubmitProposal(cancel upgrade), 2 CastVote.
 func VerifGovTx() {
@@ -131,6 +144,10 @@ func VerifGovTx() {
 		tx = transaction.Transaction{Method: governance.MethodSubmitProposal, Body: cbor.Marshal(&governance.ProposalContent{Upgrade: &governance.UpgradeProposal{Descriptor: nd}})}
 	case 1:
 		tx = transaction.Transaction{Method: governance.MethodSubmitProposal, Body: cbor.Marshal(&governance.ProposalContent{CancelUpgrade: &governance.CancelUpgradeProposal{ProposalID: 1 + uint64(symx.Choose("cancelWhich", 2))}})}
+	case 3:
+		params.EnableChangeParametersProposal = symx.Bool("changeParametersEnabled")
+		gMust(gs.SetConsensusParameters(ctx, params), "governance.SetConsensusParameters")
+		tx = transaction.Transaction{Method: governance.MethodSubmitProposal, Body: cbor.Marshal(&governance.ProposalContent{ChangeParameters: &governance.ChangeParametersProposal{Module: "staking", Changes: cbor.Marshal(map[string]uint64{"x": 1})}})}
 	default:
 		v := governance.Vote(1 + symx.Choose("vote", 3))
 		tx = transaction.Transaction{Method: governance.MethodCastVote, Body: cbor.Marshal(&governance.ProposalVote{ID: 2 + uint64(symx.Choose("voteWhich", 2)), Vote: v})}
@@ -155,7 +172,7 @@ func VerifGovTx() {
 	poolAfter, _ := st.GovernanceDeposits(ctx)
 	act, aerr := gs.ActiveProposals(ctx)
 	gMust(aerr, "ActiveProposals")
-	if kind <= 1 {
+	if kind <= 1 || kind == 3 {
 		wantA, wantPool := aAcct.General.Balance.Clone(), pool.Clone()
 		symx.Assert(wantA.Sub(&params.MinProposalDeposit) == nil, "proposal accepted from a submitter who cannot pay the deposit")
 		_ = wantPool.Add(&params.MinProposalDeposit)
